@@ -109,6 +109,10 @@ class LoopSpec:
         # names bound to the values of spec expressions at LOOP ENTRY (usable in the invariants/steps of this loop and of
         # loops nested in it): e.g. {"n1": "len(xs)"}
         self.entry_snap = OrderedDict(entry_snap or {})
+        # a stated reason why the body of this `for` loop cannot mutate the list it iterates over (an aliasing precondition
+        # that the contract language cannot express): the stability of the iterated list is then ASSUMED and reported,
+        # instead of being an obligation of every iteration
+        self.assume_iter_stable = None
 
 
 class Registry:
